@@ -46,9 +46,8 @@ def h_fold(vm, mir, root_variant, depth, forces=()):
     # operands of the root (one level down) range over every literal kind the folders may meet; deeper leaves are numbers
     def lit_kinds(path):
         lvl = path.count('Expression.0') + path.count('.lhs') + path.count('.rhs') + path.count('.operand')
-        if lvl <= 2: return ['Number', 'String', 'Null', 'Boolean', 'Mysterious']
-        if lvl <= 4: return ['Number', 'String', 'Null', 'Boolean', 'Mysterious'] if depth <= 2 else ['Number', 'Null']     # thorough (depth 3): the extra level costs a factor; keep number / null there
-        return ['Number']
+        if depth >= 3: return ['Number', 'String', 'Null'] if lvl <= 2 else ['Number']          # the deep (thorough) trees: numbers below the root literal
+        return ['Number', 'String', 'Null', 'Boolean', 'Mysterious'] if lvl <= 4 else ['Number']    # root + one level: operands of the root of every literal kind
     gen.min_choices['LiteralExpression'] = lit_kinds
     adt, node = gen.gen('Expression', depth, 'root')
     vm.describe = lambda m: {'tree': node.describe()}
@@ -114,17 +113,17 @@ def literal_values(node, m):
 
 def jobs(ctx, tier):
     mir = ctx.mir('dev'); js = []
-    d = 3 if tier == 'thorough' else 2
     ev = mir.src.enums['Expression']
-    for v in ev:
-        if v == 'BinaryExpression':
-            # sharded by the kinds of the left operand and of the first right operand
-            for l in ev:
-                for r in ev:
-                    js.append(Job(f'fold/{v}/lhs={l}/rhs={r}', h_fold, (mir, v, d, (('root.BinaryExpression.0.BinaryExpression.lhs', l), ('root.BinaryExpression.0.BinaryExpression.rhs.ExpressionList.first', r))),
-                                  witness=['fold-done'], weight=10, fuel=6_000_000))
-        else:
-            js.append(Job(f'fold/{v}', h_fold, (mir, v, d), witness=['fold-done'], weight=3, fuel=6_000_000))
+    for d in ((2, 3) if tier == 'thorough' else (2,)):
+      for v in ev:
+          if v == 'BinaryExpression':
+              # sharded by the kinds of the left operand and of the first right operand
+              for l in ev:
+                  for r in ev:
+                      js.append(Job(f'fold/depth{d}/{v}/lhs={l}/rhs={r}', h_fold, (mir, v, d, (('root.BinaryExpression.0.BinaryExpression.lhs', l), ('root.BinaryExpression.0.BinaryExpression.rhs.ExpressionList.first', r))),
+                                    witness=['fold-done'], weight=10, fuel=6_000_000))
+          else:
+              js.append(Job(f'fold/depth{d}/{v}', h_fold, (mir, v, d), witness=['fold-done'], weight=3, fuel=6_000_000))
     return js
 
 
